@@ -201,6 +201,9 @@ func (st *State) key() string {
 	})
 	writeMap("|M:", len(st.Mon), func(f func(k, v string)) {
 		for k, v := range st.Mon {
+			if strings.HasPrefix(k, "\x00") {
+				continue // bookkeeping (graph node id), not part of the abstract state
+			}
 			f(k, v)
 		}
 	})
@@ -247,7 +250,9 @@ type Machine struct {
 	MaxDepth  int
 	MaxStates int
 	Inline    func(callee *ssa.Function) bool
-	visited   map[string]bool
+	visited   map[string]int
+	OnVisit   func(st *State, b *ssa.BasicBlock) int // first visit of an abstract state at a block entry: returns a node id
+	OnRevisit func(st *State, node int)            // the state was seen before (at node)
 	States    int
 	Paths     int
 	Aborted   string
@@ -257,7 +262,7 @@ type Machine struct {
 }
 
 func NewMachine(p *Prog, model Model) *Machine {
-	return &Machine{P: p, Model: model, MaxDepth: 6, MaxStates: 400000, visited: map[string]bool{}, conds: map[string]condInfo{},
+	return &Machine{P: p, Model: model, MaxDepth: 6, MaxStates: 400000, visited: map[string]int{}, conds: map[string]condInfo{},
 		Inline: func(fn *ssa.Function) bool { return true }}
 }
 
@@ -350,10 +355,17 @@ func (m *Machine) enterBlock(st *State, b *ssa.BasicBlock) bool {
 		fr.Vals[ph] = phiVals[i]
 	}
 	k := st.key()
-	if m.visited[k] {
+	if prev, seen := m.visited[k]; seen {
+		if m.OnRevisit != nil {
+			m.OnRevisit(st, prev)
+		}
 		return false
 	}
-	m.visited[k] = true
+	node := 0
+	if m.OnVisit != nil {
+		node = m.OnVisit(st, b)
+	}
+	m.visited[k] = node
 	m.States++
 	if m.States > m.MaxStates {
 		m.Aborted = fmt.Sprintf("state budget %d exhausted", m.MaxStates)
@@ -373,7 +385,8 @@ func (m *Machine) runPath(st *State) {
 		fr.PC++
 		switch x := in.(type) {
 		case *ssa.If:
-			cond := m.resolve(st, m.eval(st, fr, x.Cond))
+			raw := m.eval(st, fr, x.Cond)
+			cond := m.resolve(st, raw)
 			succs := fr.Block.Succs
 			switch cond.K {
 			case KBool:
@@ -381,7 +394,11 @@ func (m *Machine) runPath(st *State) {
 				if cond.B {
 					tgt = succs[0]
 				}
-				m.Model.Branch(m, st, x, cond, cond.B)
+				if raw.K == KSym {
+					m.Model.Branch(m, st, x, raw, cond.B) // decided by an earlier assumption: the model still sees the test
+				} else {
+					m.Model.Branch(m, st, x, cond, cond.B)
+				}
 				if !m.enterBlock(st, tgt) {
 					m.Paths++
 					return
@@ -576,6 +593,9 @@ func (m *Machine) load(st *State, loc string, t types.Type) AV {
 	if v, ok := st.Heap[loc]; ok {
 		return v
 	}
+	if _, isStruct := t.Underlying().(*types.Struct); isStruct {
+		return Sym(loc) // a struct value is named by where it lives; its fields are loc.f
+	}
 	if strings.HasPrefix(loc, "obj:") {
 		return zeroAV(t)
 	}
@@ -606,6 +626,15 @@ func (m *Machine) step(st *State, fr *Frame, in ssa.Instruction) {
 	case *ssa.FieldAddr:
 		base := ev(x.X)
 		if base.K == KSym {
+			if alias, ok := st.Heap[base.S]; ok && alias.K == KSym {
+				if _, isStruct := derefT(x.X.Type()).Underlying().(*types.Struct); isStruct {
+					if _, isPtrVal := x.X.Type().Underlying().(*types.Pointer); isPtrVal && !strings.HasPrefix(base.S, "obj:") {
+						// pointer held in a location: keep base
+					} else if _, has := st.Heap[base.S+"."+fieldName(x.X.Type(), x.Field)]; !has {
+						base = alias
+					}
+				}
+			}
 			set(x, Sym(base.S+"."+fieldName(x.X.Type(), x.Field)))
 		} else {
 			set(x, Unk)
@@ -621,7 +650,9 @@ func (m *Machine) step(st *State, fr *Frame, in ssa.Instruction) {
 		}
 	case *ssa.IndexAddr:
 		base, idx := ev(x.X), m.resolve(st, ev(x.Index))
-		if base.K == KSym && idx.K != KUnk {
+		if base.K == KSym && idx.K == KSym && strings.HasPrefix(idx.S, "rangeidx:") {
+			set(x, Sym(base.S+"[range]"))
+		} else if base.K == KSym && idx.K != KUnk {
 			set(x, Sym(base.S+"["+idx.String()+"]"))
 		} else if base.K == KSym {
 			set(x, Sym(base.S+"[?]"))
@@ -688,11 +719,37 @@ func (m *Machine) step(st *State, fr *Frame, in ssa.Instruction) {
 			set(x, Unk)
 		}
 	case *ssa.BinOp:
+		if x.Op == token.ADD && strings.HasPrefix(x.Block().Comment, "rangeindex.loop") {
+			// the hidden counter of a lowered `for range slice`: a fresh symbolic index per iteration
+			name := "rangeidx:" + fr.ID + ":" + x.Name()
+			m.forget(st, name)
+			set(x, Sym(name))
+			return
+		}
 		set(x, m.binop(st, x, m.resolve(st, ev(x.X)), m.resolve(st, ev(x.Y))))
 	case *ssa.Store:
 		addr, val := ev(x.Addr), ev(x.Val)
 		if addr.K == KSym {
-			st.Heap[addr.S] = val
+			if _, isStruct := x.Val.Type().Underlying().(*types.Struct); isStruct && val.K == KSym {
+				// copy semantics: the fields of the stored struct value become the fields of the target
+				for k := range st.Heap {
+					if strings.HasPrefix(k, addr.S+".") {
+						delete(st.Heap, k)
+					}
+				}
+				copied := false
+				for k, v := range st.Heap {
+					if strings.HasPrefix(k, val.S+".") {
+						st.Heap[addr.S+k[len(val.S):]] = v
+						copied = true
+					}
+				}
+				if !copied || !strings.HasPrefix(val.S, "obj:") {
+					st.Heap[addr.S] = val // symbolic struct: remember the alias
+				}
+			} else {
+				st.Heap[addr.S] = val
+			}
 		}
 		m.Model.Instr(m, st, x, []AV{addr, val})
 	case *ssa.MakeInterface:
@@ -959,6 +1016,20 @@ func (m *Machine) binop(st *State, x *ssa.BinOp, a, b AV) AV {
 			return BoolV(true)
 		}
 	}
+	if a.K == KSym && b.K == KNil || a.K == KNil && b.K == KSym {
+		sv := a
+		if sv.K != KSym {
+			sv = b
+		}
+		if _, typed := st.Facts["type:"+sv.S]; typed && !sv.Neg {
+			switch op {
+			case token.EQL:
+				return BoolV(false)
+			case token.NEQ:
+				return BoolV(true)
+			}
+		}
+	}
 	if a.K == KUnk || b.K == KUnk {
 		return Unk
 	}
@@ -985,19 +1056,19 @@ func (m *Machine) binop(st *State, x *ssa.BinOp, a, b AV) AV {
 		if res.K == KSym && op == token.NEQ {
 			res.Neg = true
 		}
-		return m.resolve(st, res)
+		return res
 	case token.LSS, token.GEQ:
 		res := Sym("(" + a.String() + " < " + b.String() + ")")
 		if res.K == KSym && op == token.GEQ {
 			res.Neg = true
 		}
-		return m.resolve(st, res)
+		return res
 	case token.GTR, token.LEQ:
 		res := Sym("(" + b.String() + " < " + a.String() + ")")
 		if res.K == KSym && op == token.LEQ {
 			res.Neg = true
 		}
-		return m.resolve(st, res)
+		return res
 	default:
 		return Sym("(" + a.String() + " " + op.String() + " " + b.String() + ")")
 	}
@@ -1097,7 +1168,7 @@ func (m *Machine) doCall(st *State, fr *Frame, call ssa.CallInstruction) bool {
 				s.Log(o.Label)
 			}
 			if isVal {
-				m.forget(s, "call:"+fr.ID+":"+val.Name())
+				m.forget(s, "@"+fr.ID+":"+val.Name())
 			}
 			bind(s, o.Result)
 			if o.Apply != nil {
